@@ -41,10 +41,9 @@ func VerifC12_stall() {
 		verifrt.Assert(r.clientDone && r.clientErr != nil, "C12.stall.bounded")
 		if r.clientDone {
 			verifrt.Assert(time.Since(stepStart) <= timeout, "C12.stall.deadline")
-		} else {
-			// make sure nothing is left running natively
-			verifrt.Advance(24 * time.Hour)
 		}
+		// let the server side time out too, so that nothing is left running
+		verifrt.Advance(24 * time.Hour)
 		verifrt.Reach("C12.stall.stalled")
 	})
 }
